@@ -13,8 +13,8 @@ LEVEL = 'exploration'
 WORKERS = 4
 EXHAUSTIVE = {'quick': True, 'thorough': True}
 RULE = ('complete enumeration: every subset of {plain, @bash, @fish, @zsh, @pwsh} command definitions (32) x name in '
-        '{X, PATH, DIRECTORY} x reference position {top level, tail of a word, through another definition} x 4 target '
-        'shells = 1152 grammars, each definition with its own marker command `echo M_<name>_<flavour>`; plus plain '
+        '{X, PATH, DIRECTORY} x reference position {top level, tail of a word, through another definition, through two '
+        'definitions under four different pairs of names} x 4 target shells = 2688 grammars, each definition with its own marker command `echo M_<name>_<flavour>`; plus plain '
         'non-command definitions of PATH / DIRECTORY. The rule of the statement (X@S, else plain, else built-in for '
         'PATH/DIRECTORY, else any word) is observed (1) on the command symbols of the automaton compiled by the real '
         'pipeline, (2) on the _<cmd>_cmd_N bodies of the script the real binary emits for the target (chosen marker '
@@ -23,10 +23,13 @@ RULE = ('complete enumeration: every subset of {plain, @bash, @fish, @zsh, @pwsh
         'and the next word is reached). non-trivial = every case; distinct by (grammar, target)')
 ASSUMPTIONS = ['for fish / zsh / pwsh the built-in case is judged as "one command body that is none of the grammar\'s markers"',
                'zsh: definitions for zsh and built-ins are compadd-style commands, plain {{{ }}} definitions are stdout commands']
-MIN_EVALS = {'quick': 1100, 'thorough': 1100}
+MIN_EVALS = {'quick': 2600, 'thorough': 2600}
 FLAVOURS = ('plain', 'bash', 'fish', 'zsh', 'pwsh')
 NAMES = ('X', 'PATH', 'DIRECTORY')
 POSITIONS = ('top', 'word', 'via')
+# a reference behind two definitions; the names vary because hash-map order of definition names must not matter
+VIA2 = {'via2-SUB-OPT': ('SUB', 'OPT'), 'via2-A-B': ('A', 'B'), 'via2-FIRST-SECOND': ('FIRST', 'SECOND'),
+        'via2-OUTER-INNER': ('OUTER', 'INNER')}
 
 
 def marker(name, fl):
@@ -39,6 +42,11 @@ def build(name, subset, pos):
         stmts.append(call('cmd', seq(nt(name), lit('after'))))
     elif pos == 'word':
         stmts.append(call('cmd', seq(('word', (lit('pre='), nt(name))), lit('after'))))
+    elif pos in VIA2:
+        n1, n2 = VIA2[pos]
+        stmts.append(call('cmd', seq(nt(n1), lit('after'))))
+        stmts.append(defn(n1, None, seq(lit('go'), nt(n2))))
+        stmts.append(defn(n2, None, nt(name)))
     else:
         stmts.append(call('cmd', seq(nt('W'), lit('after'))))
         stmts.append(defn('W', None, alt(lit('x'), nt(name))))
@@ -61,7 +69,7 @@ def all_cases():
     for name in NAMES:
         for k in range(len(FLAVOURS) + 1):
             for subset in itertools.combinations(FLAVOURS, k):
-                for pos in POSITIONS:
+                for pos in POSITIONS + tuple(VIA2):
                     for target in common.SHELLS:
                         yield (name, subset, pos, target)
 
@@ -233,7 +241,7 @@ def run_job(job, acc):
             acc.seen((text, target))
             acc.count('cases_' + expected_choice(name, subset, target)[0])
             script = judge_static(case, text, P, acc)
-            if script is not None and target == 'bash':
+            if script is not None and target == 'bash' and pos in POSITIONS:
                 judge_bash(case, text, script, acc, scratch)
             if script is not None:
                 acc.sample({'grammar': text, 'target': target, 'expected': expected_choice(name, subset, target)})
